@@ -63,14 +63,19 @@ def write_text(problem, scratch, name="out.imcnp"):
 
 def split_cards(lines):
     """harness-level: split the lines one call returned into cards (a card starts at a line with a non-blank in
-    columns 1-5 that is not a comment card). Only used for calls that return several cards at once."""
+    columns 1-5 that is not a comment card and does not follow a data line ending in `&`). Only used for calls
+    that return several cards at once."""
     cards, cur = [], []
+    amp = False
     for l in lines:
-        starts = bool(l[:5].strip()) and not _is_comment(l)
+        com = _is_comment(l)
+        starts = bool(l[:5].strip()) and not com and not amp
         if starts and any(not _is_comment(x) for x in cur):
             cards.append(cur)
             cur = []
         cur.append(l)
+        if not com:
+            amp = l.split("$")[0].rstrip().endswith("&")
     if cur:
         cards.append(cur)
     return cards
